@@ -62,7 +62,7 @@ func genC09(t *rapid.T, pair *[2]uint8) SeqCase {
 }
 
 const c09Rule = "rapid-generated C01-style histories at a first index bit size (shared prefixes, removed keys, multi-file index), clean close, reopen with another bit size (translation), full read-back and iteration against the reference map, then more history under the new size; refused opens: reopen with another index / primary file-size limit (in a third of them also with another bit size) must fail with ErrIndexWrongFileSize / ErrPrimaryWrongFileSize (errors.As) and a later open with the original settings must show exactly the reference map; thorough tier additionally walks all 289 ordered pairs of 8..24 once; " +
-	"non-trivial = a translation of >=6 keys of which >=2 share a bucket afterwards, from an index of >=2 files; distinct = distinct canonical JSON of the case. The crash clause is checked by the crash campaign of this check (see coverage.crash_*)."
+	"non-trivial = a translation of >=6 keys of which >=2 share a bucket afterwards, from an index of >=2 files; distinct = distinct canonical JSON of the case. The crash clause is checked by the crash campaign of this check (see coverage.crash_*): each image is opened with the new and with the old bit size (a successful open must show every key), and an image that reads right with the old size is used further (one key updated, one removed, one added), closed and re-bucketed again, and must then equal the model."
 
 func c09Classes(c SeqCase, st SeqStats) []string {
 	cl := seqClasses(c, st)
@@ -356,6 +356,12 @@ func checkTransImage(rp TransReplay) []*Violation {
 		return nil
 	})
 	if v != nil {
+		if strings.HasPrefix(v.Signature, "panic|") {
+			// Keep the crash site in the signature (a known finding is
+			// identified by it).
+			v.Detail = "retried re-bucketing: " + v.Detail + " (" + v.Signature + ")"
+			v.Signature = "retried-translation-wrong-contents|" + site + "|panic"
+		}
 		out = append(out, v)
 	}
 	return out
